@@ -40,7 +40,7 @@ pos("parse-skips-consumption-check",CV,"""	if d, b, err = z.scan(r, base); err !
 	}
 ""","ERRNIL","(*Decimal).Parse")
 pos("scan-exponent-error-dropped",CV,"	exp, ebase, err = scanExponent(r, true, base == 0)\n	if err != nil {\n		return\n	}","	exp, ebase, _ = scanExponent(r, true, base == 0)","ERRDROP","(*Decimal).scan",quick=True)
-pos("decscan-unread-error-dropped","dec_conv.go","				err = r.UnreadByte() // ch does not belong to number anymore","				r.UnreadByte() // ch does not belong to number anymore","ERRDROP","dec.scan")
+neg("neg-decscan-unread-error-discarded","dec_conv.go","				err = r.UnreadByte() // ch does not belong to number anymore","				r.UnreadByte() // ch does not belong to number anymore",["ERRDROP"],note="putting back the byte that the ReadByte in front of it has just read cannot fail for any io.ByteScanner that honours its contract: discarding that error is not a dropped error (was a positive control until batch 7 of the refactorings showed the rule to be too strict, DESIGN 9g)")
 pos("scan-octal-fraction-4-bits",CV,"			exp2 += d * 3 // octal digits are 3 bits each","			exp2 += d * 4 // octal digits are 3 bits each","SCANSHAPE","radix-8",quick=True)
 pos("scan-hex-fraction-into-decimal-exponent",CV,"			exp2 += d * 4 // hexadecimal digits are 4 bits each","			exp10 += d * 4 // hexadecimal digits are 4 bits each","SCANSHAPE","radix-16")
 pos("scan-binary-fraction-subtracted",CV,"		case 2:\n			exp2 += d\n","		case 2:\n			exp2 -= d\n","SCANSHAPE","radix-2")
